@@ -77,13 +77,19 @@ struct CliqueCol {
     n: usize,
     split_bits: usize,
     split_val: usize,
+    /// bipartite family: n = 2*half, only edges between {0..half} and {half..n} may exist
+    bip: bool,
 }
 impl Harness for CliqueCol {
     fn name(&self) -> String {
-        format!("cliques_coloring/n{}/part{}of{}", self.n, self.split_val, 1usize << self.split_bits)
+        format!("cliques_coloring/n{}{}/part{}of{}", self.n, if self.bip { "bip" } else { "" }, self.split_val, 1usize << self.split_bits)
     }
     fn bounds(&self) -> String {
-        format!("undirected simple SymGraph n={}, all adjacency bits symbolic", self.n)
+        if self.bip {
+            format!("undirected SymGraph n={}, only the {} cross pairs of the bipartition may be edges (symbolic): every bipartite graph with parts of size {}", self.n, self.n * self.n / 4, self.n / 2)
+        } else {
+            format!("undirected simple SymGraph n={}, all adjacency bits symbolic", self.n)
+        }
     }
     fn run(&self, cfg: &Config) -> Stats {
         let n = self.n;
@@ -91,10 +97,45 @@ impl Harness for CliqueCol {
             cfg,
             || {
                 let g = SymGraph::<(), Undirected>::new("a", n, false);
-                pin(&g, self.split_bits, self.split_val);
+                if self.bip {
+                    let h = n / 2;
+                    let mut k = 0;
+                    for i in 0..n {
+                        for j in (i + 1)..n {
+                            if (i < h) == (j < h) {
+                                assume(&not(&g.var(i, j)));
+                            } else if k < self.split_bits {
+                                let v = g.var(i, j);
+                                assume(&if self.split_val >> k & 1 == 1 { v } else { not(&v) });
+                                k += 1;
+                            }
+                        }
+                    }
+                } else {
+                    pin(&g, self.split_bits, self.split_val);
+                }
                 g
             },
             |g| {
+                if self.bip {
+                    // colouring only (cliques of a bipartite graph are its edges and isolated nodes)
+                    let (col, k) = dsatur_coloring(g);
+                    if k > 2 {
+                        fail("dsatur/two_colours_on_bipartite", &format!("{} colours on a bipartite graph: {:?}", k, col));
+                    }
+                    for i in 0..n {
+                        for j in (i + 1)..n {
+                            if col.get(&i).is_none() || col.get(&j).is_none() {
+                                fail("dsatur/every_node_coloured", "missing colour");
+                                return;
+                            }
+                            if col[&i] == col[&j] {
+                                check_d("dsatur/proper", &not(&g.var(i, j)), &format!("{} and {} share colour {}", i, j, col[&i]));
+                            }
+                        }
+                    }
+                    return;
+                }
                 let cl = maximal_cliques(g);
                 // every subset: in the result iff it is a maximal clique; each once
                 for mask in 1u32..(1 << n) {
@@ -641,13 +682,16 @@ fn make(tier: &str, seed: u64) -> Vec<Box<dyn Harness>> {
     let mut v: Vec<Box<dyn Harness>> = vec![];
     for (n, sb) in [(3usize, 0usize), (4, 2), (5, 5)] {
         for val in 0..(1usize << sb) {
-            v.push(Box::new(CliqueCol { n, split_bits: sb, split_val: val }));
+            v.push(Box::new(CliqueCol { n, split_bits: sb, split_val: val, bip: false }));
         }
     }
     if thorough {
         for val in 0..(1usize << 9) {
-            v.push(Box::new(CliqueCol { n: 6, split_bits: 9, split_val: val }));
+            v.push(Box::new(CliqueCol { n: 6, split_bits: 9, split_val: val, bip: false }));
         }
+    }
+    for val in 0..64 {
+        v.push(Box::new(CliqueCol { n: 8, split_bits: 6, split_val: val, bip: true }));
     }
     let mut rng = Rng::new(seed ^ 0x20);
     // simple paths + tred
